@@ -96,7 +96,9 @@ ChooseIndex ==
        [] in.fam = "values" -> in' = [in EXCEPT !.idxs = [i \in 1..NDim(in.a) |-> IxAll]]
        [] in.fam = "points" -> \E n \in PtLens : \E idxs \in PtTuples(in.a.labs, in.mode, n) :
                                   \* at least two paired dimensions (one list alone is the orthogonal case), 3-d arrays only with n = 2
-                                  /\ Cardinality({i \in 1..Len(idxs) : idxs[i].k \in {"li", "mk"}}) >= 2
+                                  /\ \/ Cardinality({i \in 1..Len(idxs) : idxs[i].k \in {"li", "mk"}}) >= 2
+                                     \/ /\ Cardinality({i \in 1..Len(idxs) : idxs[i].k \in {"li", "mk"}}) = 1     \* one list + scalars: placement rule of the read
+                                        /\ \E i \in 1..Len(idxs) : idxs[i].k = "sc"
                                   /\ (NDim(in.a) = 3 => n = 2)
                                   /\ in' = [in EXCEPT !.idxs = idxs]
 
@@ -152,7 +154,9 @@ Apply ==
          \* pointwise read-back: one value per point, when no dimension is sliced
          pts == IF r.ok /\ in.fam = "points" /\ (\A i \in 1..Len(in.idxs) : in.idxs[i].k # "all")
                 THEN TakePoints(r.val, in.idxs, in.mode, in.tol) ELSE Err("")
-     IN /\ out' = [r |-> r, dtypes |-> IF r.ok THEN DtypeSet(in.a, r.val, in.rhs, in.cast) ELSE {}, readback |-> rb, pts |-> pts]
+         \* the whole pointwise read (axes included), slices allowed
+         pta == IF r.ok /\ in.fam = "points" THEN TakePointsArr(r.val, in.idxs, in.mode, in.tol) ELSE Err("")
+     IN /\ out' = [r |-> r, dtypes |-> IF r.ok THEN DtypeSet(in.a, r.val, in.rhs, in.cast) ELSE {}, readback |-> rb, pts |-> pts, pta |-> pta]
         /\ (Emit => PrintT(ToJson([op |-> "put", in |-> in, out |-> out'])))
 
 Next == ChooseArray \/ ChooseIndex \/ ChooseRhs \/ Apply
@@ -189,5 +193,19 @@ PointsFrame ==
 PointsReadBack ==
   (ph = 4 /\ in.fam = "points" /\ out.pts.ok) =>
     \A p \in 1..Len(out.pts.val) : out.pts.val[p] > 900 /\ (in.rhs.shape # <<>> => out.pts.val[p] = in.rhs.cells[p])
+\* the pointwise read as an array: one broadcast axis of PointCount tuples, the sliced dimensions in their order; its cells are
+\* cells of the orthogonal box (the "diagonal"), and without slices they are exactly the per-point values
+PointsArr ==
+  (ph = 4 /\ in.fam = "points" /\ out.r.ok) =>
+    /\ out.pta.ok
+    /\ LET v == out.pta.val
+           r == ResolveIndex(in.a, in.idxs, in.mode, in.tol)
+           box == Take(out.r.val, in.idxs, in.mode, in.tol).val
+       IN /\ Len(v.cells) = Prod(ShapeOf(v.labs))
+          /\ Len(v.labs[v.ins + 1]) = PointCount(r, in.idxs)
+          /\ \A j \in 1..Len(v.labs) : \A t \in 1..Len(v.labs[j]) : Len(v.labs[j][t]) = Len(v.srcdims[j])
+          /\ \A j1, j2 \in 1..Len(v.srcdims) : j1 < j2 /\ j1 # v.ins + 1 /\ j2 # v.ins + 1 => v.srcdims[j1][1] < v.srcdims[j2][1]
+          /\ \A k \in 1..Len(v.cells) : \E m \in 1..Len(box.cells) : box.cells[m] = v.cells[k]
+          /\ (out.pts.ok => v.cells = out.pts.val)
 PointsErr == (ph = 4 /\ in.fam = "points") => (out.r.ok <=> TakePoints(in.a, in.idxs, in.mode, in.tol).ok)
 =============================================================================
